@@ -8,7 +8,7 @@ CODES = {
     19: "model:unique_tx_details", 20: "model:range_transactions", 21: "model:pair_balance", 22: "model:pair_utxos",
     23: "model:pair_details", 24: "model:histories_not_equal",
     113: "balance_differs_from_ledger", 114: "spendable_set_differs_from_ledger", 116: "unconfirmed_set_differs_from_ledger",
-    117: "lease_list_differs_from_ledger", 118: "tx_details_differ_from_ledger",
+    117: "lease_list_differs_from_ledger", 118: "tx_details_differ_from_ledger", 120: "range_iteration_differs_from_ledger",
     121: "pair_balance_differs_from_ledger", 122: "pair_spendable_set_differs_from_ledger", 123: "pair_details_differ_from_ledger",
     900: "generator:tip", 901: "generator:inconsistent_event", 902: "model:out_of_fuel", 903: "generator:inconsistent_pair",
     904: "generator:pair_facts_differ", 905: "generator:universe_not_wf",
@@ -51,6 +51,10 @@ def r_event(e):
         return "Tick %s" % z(e.get("dt", 0))
     if k == "sweep":
         return "Sweep"
+    if k == "redeliver":
+        if e.get("h", 0) < 0:
+            return "Redeliver %s None" % n(e["t"])
+        return "Redeliver %s (Some (%s, %s, %s))" % (n(e["t"]), z(e.get("h", 0)), n(e.get("b", 0)), z(e.get("bt", 0)))
     raise ValueError(k)
 
 
@@ -104,6 +108,7 @@ class TxCheck(Check):
     MODE = "c01"
     SHARD = 25
     KINDS = None        # spec-level codes that belong to this property (None = all)
+    MODEL_CODES = None  # model-level codes (10..99) whose mismatch breaks THIS property's correspondence
     MAXEV = 40
     MAXTX = 12
 
@@ -160,6 +165,13 @@ Print bad.
             c = cases[ci]
             spec = sorted({CODES.get(code, str(code)) for ev, code in fl if 100 <= code < 900 or code == 10})
             other = [(ev, code) for ev, code in fl if not (100 <= code < 900 or code == 10)]
+            if self.MODEL_CODES is not None:
+                # observables outside this property's text are compared for
+                # information only (recorded, never an alarm for this property)
+                drift = [(ev, code) for ev, code in other if code < 100 and code not in self.MODEL_CODES]
+                other = [(ev, code) for ev, code in other if not (code < 100 and code not in self.MODEL_CODES)]
+                if drift:
+                    self.drift = getattr(self, "drift", 0) + 1
             if self.KINDS is not None:
                 spec = [k for k in spec if k in self.KINDS]
             for k in spec:
@@ -173,6 +185,9 @@ Print bad.
                     problems.append("generator produced an inadmissible case (index %d): %s" % (
                         ci, [CODES.get(x) for x in gen]))
         return mism, logs, problems
+
+    def extra_coverage(self, cases):
+        return dict(cases_with_drift_in_observables_outside_this_property=getattr(self, "drift", 0))
 
     def site_of(self, case, kind):
         # site = the event kind at which the property first failed
